@@ -7,12 +7,15 @@
     so=eq|ne|~       model text ~ implementation text   (token equivalence, Enc.textEq)
     mr=eq|ne|~       model text ~ reference text
     sr=eq|ne|~       implementation text ~ reference text
+    std=ok|err:<kind>|unsupported|~   the specification of encoding/json (Model/EncStd.lean) on the same case, with
+    stdout=<hex>, xr= (spec ~ reference text), xs= (spec ~ implementation text), xm=same|eq|ne (spec vs Enc model)
     rt=eq|le|ne|na|~ decodeBack T (implementation text) against V: equal, equal up to nil-vs-empty containers, different
   `cfgbits` is the decimal mask over sonic.Config's fields in declaration order (Generated/Opts.lean).
     jcmp <ordered 0|1> [out=<hex>] [rout=<hex>]     only wf= and sr= of two texts
     compat quote <hex>      the Go fallback Quote of spec_compat.go (Model/EncCompat.lean)
 -/
 import SonicSpec.Model.EncDec
+import SonicSpec.Model.EncStd
 import SonicSpec.Model.EncCompat
 import SonicSpec.Generated.Opts
 namespace SonicSpec.Driver.Enc
@@ -86,12 +89,28 @@ def handleMar (cfg T V : String) (rest : List String) : Option String := do
         | .error .na => "na"
         | .error .mismatch => "ne"
       | none => "~"
-    match encode o t v with
-    | .error .outside => pure s!"model=unsupported\twf={wf}\tsr={sr}\trt={rt}"
-    | .error .illTyped => pure s!"model=unsupported\twf={wf}\tsr={sr}\trt={rt}"
-    | .error e => pure s!"model=err:{errName e}\twf={wf}\tsr={sr}\trt={rt}"
+    -- second voice: the specification of encoding/json itself (Model/EncStd.lean), for option words that are
+    -- encoding/json's behaviour (sorted keys, compaction, U+FFFD; EscapeHTML either way)
+    let stdShaped := o.sortMapKeys && o.compactMarshaler && o.validateString && !o.noQuoteTextMarshaler &&
+      !o.noNullSliceOrMap && !o.encodeNullForInfOrNan
+    let stdr := if stdShaped then some (EncStd.marshal o.escapeHTML t v) else none
+    let encr := encode o t v
+    let std := match stdr with
+      | none => "std=~"
+      | some (.error .outside) => "std=unsupported"
+      | some (.error .illTyped) => "std=unsupported"
+      | some (.error e) => s!"std=err:{errName e}"
+      | some (.ok x) =>
+        let xm := match encr with
+          | .ok m => if m == x then "same" else if textEq true m x then "eq" else "ne"
+          | .error _ => "~"
+        s!"std=ok\tstdout={hexArg x}\txr={rel true (some x) rout}\txs={rel true (some x) out}\txm={xm}"
+    match encr with
+    | .error .outside => pure s!"model=unsupported\twf={wf}\tsr={sr}\trt={rt}\t{std}"
+    | .error .illTyped => pure s!"model=unsupported\twf={wf}\tsr={sr}\trt={rt}\t{std}"
+    | .error e => pure s!"model=err:{errName e}\twf={wf}\tsr={sr}\trt={rt}\t{std}"
     | .ok m =>
-      pure s!"model=ok\tmout={hexArg m}\twf={wf}\tso={rel o.sortMapKeys (some m) out}\tmr={rel o.sortMapKeys (some m) rout}\tsr={sr}\trt={rt}"
+      pure s!"model=ok\tmout={hexArg m}\twf={wf}\tso={rel o.sortMapKeys (some m) out}\tmr={rel o.sortMapKeys (some m) rout}\tsr={sr}\trt={rt}\t{std}"
 
 def handle : List String → Option String
   | "mar" :: cfg :: T :: V :: rest => handleMar cfg T V rest
